@@ -96,6 +96,19 @@ func checkCloserPar(_ *testing.T, v *ev.Verdict, c CloserParCase) {
 		st.closeReturned.Store(true)
 		_ = closeIt() // a second Close must not run the close function again
 	}()
+	// further goroutines call Close at the same moment
+	for k := 0; k < c.Users%3; k++ {
+		wg.Add(1)
+		go func() {
+			defer wg.Done()
+			for !start.Load() {
+			}
+			for i := 0; i < c.Before; i++ {
+				runtime.Gosched()
+			}
+			_ = closeIt()
+		}()
+	}
 	start.Store(true)
 	wg.Wait()
 	switch {
@@ -111,5 +124,5 @@ func checkCloserPar(_ *testing.T, v *ev.Verdict, c CloserParCase) {
 }
 
 func TestC20CloserPar(t *testing.T) {
-	drive(t, "1..6 goroutines x 1..40 Read|Write calls on a ReadCloser/WriteCloser whose wrapped stream yields 0..5 times per call, while another goroutine calls Close (twice) after 0..30 yields, with real parallelism; oracle: when Close returns no call on the wrapped stream is in progress and none begins afterwards, the close function runs exactly once; non-trivial always; distinct by input", genCloserPar, checkCloserPar)
+	drive(t, "1..6 goroutines x 1..40 Read|Write calls on a ReadCloser/WriteCloser whose wrapped stream yields 0..5 times per call, while one to three goroutines call Close (one of them twice) after 0..30 yields, with real parallelism; oracle: when Close returns no call on the wrapped stream is in progress and none begins afterwards, the close function runs exactly once; non-trivial always; distinct by input", genCloserPar, checkCloserPar)
 }
